@@ -33,6 +33,7 @@ func (c *CompactionWorker) CompactAsync(datasetID string, strategy CompactionStr
 		c.running = true
 		go func() {
 			verifhook.Go(c.bs.GetDB(), "compaction")
+			defer verifhook.Done(c.bs.GetDB(), "compaction")
 			defer func() {
 				c.running = false
 			}()
